@@ -311,9 +311,85 @@ def widthunits(run, fx):
         run.held('UNITS', inst, fn.loc(ce), '`%s` dominates the other %d reads of width' % (fn.render(ce), n))
 
 
+def posapi(run, fx):
+    """FONTFLOW: positions in the caller's units exist from the ONE final positioning of gr_make_seg (and of gr_seg_justify) on; the
+    passes position in design units while they run.  So no API query re-positions: no `gr_*` entry other than gr_seg_justify reaches
+    Segment::positionSlots or Slot::finalise by a direct call (a query that "calculates the position attributes first" overwrites every
+    origin of a font-scaled segment with design-unit values)."""
+    n, bad = 0, None
+    for q in ('graphite2::Segment::positionSlots', 'graphite2::Slot::finalise', 'graphite2::Segment::finalise'):
+        for fn, e in callers_of(fx, q):
+            n += 1
+            if fn.q.startswith('gr_') and fn.q not in ('gr_seg_justify',) and not fn.q.startswith('gr_make_seg'):
+                bad = bad or (fn, e, q)
+    inst = 'no API query positions the segment again'
+    if n < 10:
+        run.broken('FONTFLOW', inst, 'only %d callers of the positioning functions found' % n)
+    elif bad:
+        fn, e, q = bad
+        run.violated('FONTFLOW', inst, fn.loc(e), '%s calls %s: a query made after gr_make_seg positions the whole segment once more -- with the font it passes (none: design units), so every '
+                     'gr_slot_origin_X/Y read afterwards is no longer the design-unit position times ppm/upem' % (fn.q, q.split('graphite2::')[-1]))
+    else:
+        run.held('FONTFLOW', inst, '', '%d callers, none of them an API query' % n)
+
+
+def nopixeldecision(run, fx):
+    """UNITS in Segment::justify: everything justify decides -- how much space there is to distribute, which level takes it -- it decides
+    on design-unit quantities (pixel inputs are DIVIDED by the scale on entry), so that the run with a font distributes exactly what the
+    run without one does.  No quantity multiplied by the scale flows into a branch condition of justify (a "fits to within half a
+    pixel" shortcut distributes with one font size and not with another)."""
+    fn = fx.one('graphite2::Segment::justify')
+    scales = {d['vid'] for _, e in fn.elements() if e['k'] == 'DeclStmt' for d in e.get('decls', []) if d.get('init') is not None
+              and any((x.get('fq') or '').endswith('Font::scale') for x in fn.walk(d['init']))}
+    inst = 'justify decides on design-unit quantities only'
+    if not scales:
+        run.broken('UNITS', inst, 'the local that holds font->scale() was not found in Segment::justify', fn.where())
+        return
+
+    def pixel(x, seen=()):
+        """does expression x contain a product with the scale (directly or through a local initialised / assigned with one)?"""
+        for y in fn.walk(x):
+            if y['k'] in ('BinaryOperator', 'CompoundAssignOperator') and y.get('op') in ('*', '*='):
+                if any(z['k'] == 'DeclRefExpr' and z.get('vid') in scales for c_ in y['c'] for z in fn.walk(c_)):
+                    return True
+            if y['k'] == 'DeclRefExpr' and y.get('vid') in tainted and y.get('vid') not in seen:
+                return True
+        return False
+    tainted = set()
+    for _r in range(3):
+        for _, e in fn.elements():
+            if e['k'] == 'DeclStmt':
+                for d in e.get('decls', []):
+                    if d.get('init') is not None and pixel(d['init']):
+                        tainted.add(d['vid'])
+            elif e['k'] in ('BinaryOperator', 'CompoundAssignOperator') and e.get('op', '').endswith('=') and e['op'] not in ('==', '!=', '<=', '>='):
+                l = fn.strip(e['c'][0])
+                if l['k'] == 'DeclRefExpr' and l.get('vid') is not None and (pixel(e['c'][1]) or (e['op'] == '*=' and pixel(e))):
+                    tainted.add(l['vid'])
+    n, bad = 0, None
+    for b in fn.blocks:
+        c = fn.term_cond(b)
+        if c is None or len(fn.blocks[b]['succ']) != 2:
+            continue
+        n += 1
+        if pixel(c):
+            nd_ = fn.N(c) if isinstance(c, int) else c
+            if bad is None or (nd_.get('ln') or 10 ** 9) < ((fn.N(bad) if isinstance(bad, int) else bad).get('ln') or 10 ** 9):
+                bad = c
+    if bad is not None:
+        node = fn.N(bad) if isinstance(bad, int) else bad
+        run.violated('UNITS', inst, fn.loc(node) if 'ln' in node else fn.where(), 'Segment::justify branches on `%s`, a quantity multiplied by the font scale (pixels): whether and how the line is justified then '
+                     'depends on the font size, and the positions with a font are no longer the design-unit positions times ppm/upem' % fn.render(node)[:200])
+    elif n < 10:
+        run.broken('UNITS', inst, 'only %d branch conditions seen in Segment::justify' % n, fn.where())
+    else:
+        run.held('UNITS', inst, fn.where(), '%d branch conditions, none on a scaled quantity' % n)
+
+
 def run(run):
     fx = run.facts('Q0')
     fontflow(run, fx)
+    posapi(run, fx)
     lastposition(run)
     fontface(run, fx)
     scaleuse(run, fx)
@@ -321,6 +397,7 @@ def run(run):
     units(run, fx)
     sameterms(run, fx)
     widthunits(run, fx)
+    nopixeldecision(run, fx)
     from . import posexec
     posexec.finalise_exec(run, fx, rules=('UNITS',), deep=getattr(run, 'tier', 'quick') != 'quick')      # Slot::finalise with symbolic floats: font run = scale x design-unit run
     fontuse(run, fx)
